@@ -728,6 +728,15 @@ func (c16) Exec(c *core.Case) (out *core.Outcome) {
 					o.Probe("acknowledged_upload_id_lost_to_delete")
 				}
 			}
+			if delRes.Resp.OK() && upRes.Resp.OK() {
+				// both acknowledged: if the bucket exists afterwards it is still the bucket that was created
+				if hb := chk.Do(s3c.HeadBucket(b)); hb.Resp.Status == 200 {
+					ga := chk.Do(s3c.BucketSub("GET", b, "acl", nil))
+					if !ga.Resp.OK() || !bytes.Contains(ga.Resp.Body, []byte("own16")) {
+						o.Violate("delete-race", "C16/race/create-mpu/both-acknowledged-bucket-lost-its-owner", "%s: DeleteBucket and CreateMultipartUpload were both acknowledged; the bucket exists, but GetBucketAcl -> %d without the owner of the bucket (%s)", desc, ga.Resp.Status, abbreviate(string(ga.Resp.Body), 200))
+					}
+				}
+			}
 		case "create-bucket":
 			// creating an existing bucket fails unless the delete came first; whatever the order, the store must end consistent
 			hb := chk.Do(s3c.HeadBucket(b))
